@@ -140,3 +140,110 @@ PROPS['C12'] = {
     'bounded': ['raw attributes with value length 0..=8 (Kani, bounded)', 'variable-length attribute types 0..=763 B, MessageBuilder build/write_into/into_owned/clone: BX'],
     'trusted': _KX_TRUST,
 }
+
+_AGENT_TRUST = ['vstd specifications of BTreeMap (insert/remove/get/get_mut/contains_key) and HashSet (insert/contains) with the key-model axioms for TransactionId (derived Ord) and SocketAddr',
+                'Instant/Duration as an integer nanosecond axis (shims/time.rs); cross-checked against real Timespec arithmetic by KX k06_request_poll (thorough)',
+                'dependency stand-ins (shims/deps_agent.rs): MessageBuilder::{build,transaction_id,has_class,has_attribute}, Message::{is_response,transaction_id,validate_integrity} are uninterpreted - the agent is verified for whatever they return',
+                'DataSlice::to_owned copies the bytes (external_body: Box<[u8]>::from(&[u8]) has no vstd spec); tracing macros dropped (R1)']
+_AGENT_FNS_ALL = None
+PROPS['C05'] = {
+    'level': 'exploration',
+    'vx': [{'unit': 'agent'}],
+    'kx': ['k06_request_poll'],
+    'bx': ['c05'],
+    'rule': 'Verus VCs of unit agent (whole-view postconditions of send / handle_stun / take_outstanding_request / request_transaction / cancel / StunRequestState::poll and the exactly-once theorem); BX for StunAgent::poll.',
+    'proved': ['send: duplicate id => AlreadyInProgress and the map is unchanged; fresh id => inserted; non-requests leave the map unchanged',
+               'handle_stun: unknown id => Drop, nothing changes; delivered => id was outstanding and is removed; Drop => whole map unchanged (=~=)',
+               'request_transaction(t).is_some() <=> t outstanding; cancel sets exactly the two flags of that transaction',
+               'StunRequestState::poll: Cancelled iff flags, TimedOut/WaitUntil/SendData per schedule; nothing but (timeout_i, last_send_time) changes',
+               'theorem_exactly_once / lemma_not_outstanding_stays: between two completions of an id there is a successful send of it; while not outstanding no transmission, delivery or completion for it occurs'],
+    'bounded': ['StunAgent::poll (for .. in values_mut(): no Verus spec for the BTreeMap iterator) turns a per-request verdict into removal: BX histories to depth bound, step-by-step against the abstract agent'],
+    'trusted': _AGENT_TRUST + _KX_TRUST,
+}
+PROPS['C06'] = {
+    'level': 'exploration',
+    'vx': [{'unit': 'agent', 'functions': ['StunRequestState :: poll', 'StunRequestState :: new', 'cancel_retransmissions', 'impl StunAgent :: send', 'mut_request_state']}],
+    'kx': ['k06_request_poll'],
+    'bx': ['c06'],
+    'rule': 'Verus VCs of StunRequestState::{new,poll} for schedules of any length; BX for configure_timeout and the agent-level minimum.',
+    'proved': ['StunRequestState::new: UDP schedule [500,1000,2000,4000,8000,16000] + 8000 ms, TCP [] + 39500 ms',
+               'poll: WaitUntil(last_send + schedule[i]) iff now is earlier, state unchanged (so polling early again gives the same t); due => SendData with last_send := now, i := i+1; past last_send + last_timeout after the final transmission => TimedOut; nothing transmitted once send_cancelled',
+               'cancel_retransmissions sets exactly send_cancelled of that transaction'],
+    'bounded': ['configure_timeout (iterator map/fold over Duration): BX exhaustive over rto x retransmits 0..=8 x last timeout grid', 'StunAgent::poll minimum over transactions / event at t: BX with 1..3 concurrent transactions'],
+    'trusted': _AGENT_TRUST + _KX_TRUST,
+}
+PROPS['C07'] = {
+    'level': 'proof',
+    'vx': [{'unit': 'agent', 'functions': ['handle_stun', 'take_outstanding_request', 'validated_peer', 'StunRequestState :: new']}],
+    'bx': ['c07'],
+    'rule': 'Verus VCs of handle_stun and StunRequestState::new in unit agent.',
+    'proved': ['StunResponse => transaction outstanding and (request_had_credentials => remote credentials set and validate_integrity(msg, them) is Ok)',
+               'had credentials and (no remote credentials or validation Err) => Drop and the whole abstract state (every ReqView incl. timer, peer set) unchanged; no credentials => delivered without validation',
+               'request_had_credentials <=> builder has MESSAGE-INTEGRITY or MESSAGE-INTEGRITY-SHA256'],
+    'bounded': ['end to end with real HMACs (meaning of validate_integrity is C04): BX'],
+    'trusted': _AGENT_TRUST,
+}
+PROPS['C15'] = {
+    'level': 'proof',
+    'vx': [{'unit': 'agent', 'functions': ['handle_stun', 'validated_peer', 'is_validated_peer', 'impl StunAgent :: send', 'take_outstanding_request', 'cancel', 'mut_request_state', 'theorem_peers']}],
+    'bx': ['c15'],
+    'rule': 'Verus VCs of unit agent: whole-set postconditions on validated_peers and theorem_peers.',
+    'proved': ['peers\' == peers + {from} exactly on IncomingStun / StunResponse exits; peers unchanged on Drop, in send, cancel, cancel_retransmissions, take_outstanding_request',
+               'is_validated_peer(a) <=> a in peers', 'theorem_peers: monotone; validated exactly by an Incoming/Deliver event from that address'],
+    'bounded': ['StunAgent::poll does not touch the set: BX (frame is evident: poll never names validated_peers)'],
+    'trusted': _AGENT_TRUST,
+}
+PROPS['C18'] = {
+    'level': 'exploration',
+    'vx': [{'unit': 'agent', 'functions': ['StunRequestState :: new', 'StunRequestState :: poll', 'impl StunAgent :: send', 'send_data', 'Transmit', 'peer_address', 'request_state', 'into_owned', 'to_owned', 'deref']}],
+    'kx': ['k06_request_poll'],
+    'bx': ['c18'],
+    'rule': 'Verus VCs of unit agent (bytes captured once, SendData carries them unchanged with the same 5-tuple).',
+    'proved': ['StunRequestState::new: bytes == build(request), to/from/transport as given', 'poll: SendData == (bytes, transport, from, to); these fields never change',
+               'send: returns Transmit(build(msg), transport, local_addr, to) for requests and non-requests; non-requests leave no transaction', 'peer_address == out[t].to'],
+    'bounded': ['StunAgent::poll forwards the per-request Transmit: BX'],
+    'trusted': _AGENT_TRUST + _KX_TRUST,
+}
+PROPS['C20'] = {
+    'level': 'exploration',
+    'vx': [{'unit': 'agent'}],
+    'kx': ['k20_request_poll_shift'],
+    'bx': ['c20'],
+    'rule': 'closed-world Verus verification of agent.rs functions (a call to an unspecified function is an unsupported construct; ambient sources on the deny-list are reported as C20 violations) + BX shifted replay.',
+    'proved': ['every extracted agent function is verified against contracts that mention only its arguments and the agent state: results are functions of (state, arguments); time enters only through `now`',
+               'poll contract is shift-invariant: all instants appear only as inst_ns(now) - relative comparisons and last_send + schedule'],
+    'bounded': ['whole-agent shifted replay, second instance, other thread, unrelated agents alongside: BX', 'StunRequestState::poll 2-safety under real Timespec arithmetic: KX thorough'],
+    'trusted': _AGENT_TRUST + _KX_TRUST,
+}
+
+_BX_TRUST = ['BX reference implementations (CRC-32, MD5, SHA-1, SHA-256, HMAC, TLV decoder/encoder, abstract agent) written for this harness from the RFCs / property statements; self-tested against published vectors and python hashlib/zlib at setup']
+PROPS['C03'] = {
+    'level': 'exploration',
+    'bx': ['c03'],
+    'technique': 'bounded stand-in (execution of the real MessageBuilder against an independent serialiser + reference decoder); the parser side it relies on is proved in unit parse (C02)',
+    'rule': 'see engines.bx[0].rule',
+    'proved': ['(in C02/C10) the parser accepts exactly the well-formed buffers and exposes them faithfully - so "parses back identically" reduces to "build() produces the specified layout"'],
+    'bounded': ['MessageBuilder::{build,write_into,byte_len,add_*} produce the specified layout: BX random builder programs (dyn AttributeWrite + SmallVec + iterator sums are outside the Verus subset; Kani exhausted 15 min / 13 GB on a one-attribute builder)'],
+    'trusted': _BX_TRUST,
+}
+PROPS['C11'] = {
+    'level': 'exploration',
+    'bx': ['c11'],
+    'technique': 'bounded stand-in (exhaustive operation sequences over the sealing alphabet + random programs on the real MessageBuilder against the ordering rules of the statement)',
+    'rule': 'see engines.bx[0].rule',
+    'proved': [],
+    'bounded': ['all builder guard logic: BX, exhaustive for sequences up to length 5 (quick) / 6 (thorough) over {typed, raw, SHA-1, SHA-256, fingerprint}, random programs up to length 7 with into_owned/clone/duplicates'],
+    'trusted': _BX_TRUST,
+}
+PROPS['C04'] = {
+    'level': 'exploration',
+    'vx': [{'unit': 'parse', 'functions': ["Message<'a> :: from_bytes", 'next']}],
+    'bx': ['c04'],
+    'rule': 'see engines.bx[0].rule',
+    'proved': ['(unit parse) every accepted buffer is tiled by TLVs and the iterator exposes the integrity attributes per the C10 rule - the structural half of "which attribute is checked"'],
+    'bounded': ['validate_integrity verdicts, HMAC input (prefix with rewritten length), key derivation, tamper evidence, truncated SHA-256: BX against independent HMAC-SHA1/SHA256/MD5'],
+    'trusted': _BX_TRUST + ['hmac / sha1 / sha2 / md-5 crates (their agreement with the independent implementations is checked on every BX case, not proved)'],
+}
+for _p in ('C01', 'C02', 'C05', 'C06', 'C07', 'C08', 'C09', 'C10', 'C12', 'C13', 'C14', 'C15', 'C16', 'C17', 'C18', 'C19', 'C20'):
+    PROPS[_p].setdefault('trusted', [])
+    PROPS[_p]['trusted'] = PROPS[_p]['trusted'] + _BX_TRUST
